@@ -12,8 +12,8 @@ RULE = ("Generator: function registry (slope, aspect, curvature, hillshade, foca
         "equal_interval, ten spectral indices, true_color, perlin, generate_terrain) x rasters 2..10 a side (all int/uint/float dtypes, NaN/+-inf cells, "
         "non-unit non-square cell sizes via coords or res) x odd kernels incl. non-square, asymmetric and larger than a chunk x a drawn composition of H and "
         "of W as chunks, drawn INDEPENDENTLY per input raster for multi-raster functions x scheduler {synchronous, threads x {1,2,4,16}}. Oracle: the same "
-        "call on the NumPy raster: bit-identical (NaN=NaN) for per-cell kernels; label-equal outside a 1e-4 z-score band for hotspots and outside a 1e-9 cut "
-        "band for equal_interval; rtol 1e-5/atol 1e-7 for perlin/generate_terrain (water threshold flips within 1e-4 counted ambiguous); result must be "
+        "call on the NumPy raster: bit-identical (NaN=NaN) for per-cell kernels; label-equal outside a 1e-4 z-score band for hotspots, label-equal "
+        "everywhere for equal_interval (its bounds depend on the raster only through min and max); rtol 1e-5/atol 1e-7 for perlin/generate_terrain (water threshold flips within 1e-4 counted ambiguous); result must be "
         "Dask-backed before compute. Exhaustive shards: every chunk-composition product of 3x3/4x4 (quick), 5x5 (thorough) rasters. Non-trivial: some input "
         "has >= 2 chunks on an axis and the NumPy result has a finite cell. Distinct by SHA-1 / enumeration index.")
 ASSUMPTIONS = ["H,W >= 2 unless a res attribute is given (no cell size is defined otherwise)", "hotspots input is not constant (zero global std raises by contract)",
@@ -207,15 +207,15 @@ def body_d(case, ctx):
     if fn == "equal_interval":
         g, e = got.astype("float64"), refv.astype("float64")
         bad = ~((g == e) | (np.isnan(g) & np.isnan(e)))
+        # the class bounds depend on the raster only through its minimum and maximum, which do not depend on the order of reduction: the statement's
+        # rounding allowance does not apply, cells exactly on a class boundary included
         if bad.any():
             a = dec_arr(case["rasters"][0]).astype("float64")
             fin = np.isfinite(a)
             lo, hi = a[fin].min(), a[fin].max()
             q = (a - lo) / ((hi - lo) / p["k"])
-            near = np.abs(q - np.round(q)) < 1e-9
-            r.amb += int((bad & near).sum())
-            bad &= ~near
-        if bad.any():
+            if (bad & (np.abs(q - np.round(q)) < 1e-9)).any():
+                r.label("equal_interval:differs_on_a_class_boundary")
             return r.fail("value[equal_interval]", info)
         return r
     if got.dtype != refv.dtype:
@@ -365,6 +365,14 @@ def classify_cases(draw, max_side):
             else:
                 return draw(classify_cases(max_side))
         params = {"k": draw(st.integers(2, 7))}
+        if draw(st.integers(0, 2)) == 0 and h * w >= 3:
+            # every cell an integer between the bounds lo and lo + span, in single or double precision: cells sit exactly ON the class bounds, and
+            # span / k is not exact in float32 - the place where bounds formed in another precision put a cell into another class
+            lo, span = draw(st.sampled_from([0, 2, -5, 100])), draw(st.sampled_from([10, 12, 14, 30, 6]))
+            flat = draw(st.lists(st.integers(lo, lo + span), min_size=h * w, max_size=h * w))
+            flat[0], flat[-1] = lo, lo + span
+            ras = {"dtype": draw(st.sampled_from(["float32", "float32", "float64", "int32"])),
+                   "data": [[float(v) for v in flat[i * w:(i + 1) * w]] for i in range(h)]}
     case.update({"fn": fn, "rasters": [ras], "params": params})
     return case
 
@@ -435,6 +443,23 @@ def enum_cases(n, fname, lo, hi):
                "x": {"start": 5, "step": 0.5, "n": n, "desc": False}, "chunks": chunks, "scheduler": "synchronous", "res": None, "enum": [n, fname, idx]}
 
 
+def eqint_boundary_cases():
+    """equal_interval on rasters holding EVERY integer between their bounds, so that cells sit exactly on the class bounds, for spans whose
+    class width is / is not exact in single precision: dtype x lower bound x span x k, two chunkings."""
+    i = 0
+    for dt in ("float32", "float64", "int32"):
+        for lo in (0, 2, -5, 100):
+            for span in (6, 10, 12, 14, 30):
+                for k in range(2, 8):
+                    n = span + 1
+                    for chunks in ([[1], [3] * (n // 3) + ([n % 3] if n % 3 else [])], [[1], [n]]):
+                        i += 1
+                        yield {"sub": "d", "y": {"start": 0, "step": 1, "desc": False, "n": 1}, "x": {"start": 0, "step": 1, "desc": False, "n": n},
+                               "chunks": [chunks], "scheduler": "synchronous", "res": None, "fn": "equal_interval",
+                               "rasters": [{"dtype": dt, "data": [[float(lo + j) for j in range(n)]]}], "params": {"k": k},
+                               "enum": ["eqint_boundary", dt, lo, span, k, i % 2]}
+
+
 def shards(tier):
     out = []
     side = 8 if tier == "quick" else 10
@@ -444,6 +469,8 @@ def shards(tier):
     for name, strat, nsh, per in plan:
         for i in range(nsh if tier == "quick" else nsh + 1):
             out.append(("%s#%d" % (name, i), lambda ctx, strat=strat, per=per: drive_hypothesis(ctx, body_d, strat(side), per * mult)))
+    out.append(("eqint_boundary", lambda ctx: drive_enum(ctx, body_d, eqint_boundary_cases(), space="equal_interval: dtype x lower bound x span x k x 2 chunkings, "
+                                                        "every integer between the bounds present", size=3 * 4 * 5 * 6 * 2)))
     if tier == "quick":
         eplan = [(3, f) for f in ("slope", "aspect", "curvature", "hillshade", "focal_apply", "convolution_2d", "hotspots")] + [(4, f) for f in ("slope", "focal_mean")]
     else:
@@ -464,5 +491,5 @@ LEVEL_TEXT = ("Differential search (Dask vs NumPy backend) over a registry of 25
               "kernels x schedulers/worker counts, bit-exact for per-cell kernels; plus every chunk-composition product of 3x3/4x4 (quick) and up to 5x5 "
               "(thorough) rasters for the registry functions.")
 LEVEL_NOTE = ("Sampled outside the enumerated chunk products; the harness chooses scheduler and worker count but does not own interleavings; thresholded outputs "
-              "(hotspots, equal_interval, terrain water level) skip and count cells inside a stated rounding band.")
+              "(hotspots, terrain water level) skip and count cells inside a stated rounding band.")
 TECHNIQUE = "differential property-based testing (Dask vs NumPy backend), exhaustive small chunk-composition products"
